@@ -689,14 +689,17 @@ MANIFEST_ENTRY = {
             "channel count and size (induction); SimpleITK-backed formats round-trip exactly for D in {2,3}, any C, any grid, every "
             "torch element type (full); a library-written .mha read under ITK's convention is Image.sitk() (full); native .mha "
             "round trip and reading of ITK-written .mha exact for D in {2,3}, any C, compressed or not (full; data without channel "
-            "dimension is traced to give the C = 1 file); NIfTI writer refuted (no file is produced), reader exact on ITK-written scalar files, "
-            "refuted on ITK vector layout; element-type tables and promotions value-preserving (finite, complete); flow vectors go to "
-            "world axes on write and return to the original axes for orthonormal directions (field algebra). Tie: correspondence that "
+            "dimension is traced to give the C = 1 file); native NIfTI round trip and reading of ITK-written scalar and vector NIfTI exact for "
+            "D in {2,3}, any C (full); element-type tables and promotions value-preserving (finite, complete); flow vectors go to "
+            "world axes on write and return to the original axes for orthonormal directions (field algebra); the align_corners flag requested on "
+            "reading is the flag of the returned grid; suffix dispatch uses the same backend for writing and reading; the file order does not "
+            "depend on the memory layout of the input tensor (contiguous / Fortran / strided traces); NIfTI round trip and ITK-layout reading in "
+            "conditional form for every layout and channel count. Tie: correspondence that "
             "really writes and reads files over format x D x channels x dtype x compress (complete in thorough) in both directions of "
             "SimpleITK interoperability, comparing header fields, payload order and read-back to the model inside Coq.",
     "note": "Partial: byte formats, zlib, header text, nibabel and ITK are runtime (trusted, tied only by the correspondence on real files); "
             "the ITK MetaImage/NIfTI conventions are hand-written specifications validated the same way; Grid's float32 origin<->center "
-            "conversion is compared to 1e-5, voxel data exactly. Genuine defects of the tree are reported as known findings "
-            "(NIfTI cannot be written; ITK vector NIfTI cannot be read); the three MetaImage defects found by this check "
-            "(2-D, multi-channel, channel-less data) are repaired in /repo.",
+            "conversion is compared to 1e-5, voxel data exactly. The five defects found by this check (2-D, multi-channel and channel-less "
+            "MetaImage; NIfTI writer; ITK vector NIfTI reader) are repaired in /repo. NIfTI cannot distinguish a trailing singleton spatial axis of a "
+            "vector image from padding (format limit shared with ITK): such grids are not generated for multi-channel NIfTI.",
 }
